@@ -46,7 +46,7 @@ func TestC08(t *testing.T) {
 		if w.AnnotTrue(e, "rolling-update-paused") || w.AnnotTrue(e, "rollout-frozen") || w.AnnotTrue(e, "canary-paused") || autoPaused {
 			k++
 			if h.Thorough() || k%5 == 0 {
-				if perSc[sc.Name] < 35000 {
+				if perSc[sc.Name] < 50000 {
 					perSc[sc.Name]++
 					held = append(held, start{sc, s})
 				} else {
@@ -119,7 +119,7 @@ func TestC08(t *testing.T) {
 	})
 	requireAntecedents(run, "C08/resume-closure", "C08/paused-closure", "C08/unpause-closure")
 	if n := run.Counter("held_states_not_kept"); n > 0 {
-		run.NotExhaustive(fmt.Sprintf("%d states beyond the first 35000 of a scenario were not used as closure starts", n))
+		run.NotExhaustive(fmt.Sprintf("%d states beyond the first 50000 of a scenario were not used as closure starts", n))
 	}
 	exit(run.Finish(fmt.Sprintf("BFS of rolling-update and canary scenarios with every toggling order of the paused / frozen / canary-paused / canary-unpaused annotations (and kubectl-eds pause/unpause/validate) up to the budget, all interleavings; monitors: nothing withheld is done (C08), status.state (C14 status function), no promotion while paused (C05); closures from %d held states for 'still creates' and 'resumes'; non-trivial = scenarios", len(held))))
 }
